@@ -38,7 +38,7 @@ example : (lydPath exTree [0, 0, 2] .std (some 20)).map (fun b => (b.data, b.cap
     some ([47, 109, 97, 58, 99, 47, 108, 91, 107, 49, 61, 39, 97, 32, 98, 39, 93], 20) := by decide
 
 /-- **static_buffer_terminated** (full statement): whenever `lyd_path` returns the caller's buffer it has written a
-    (possibly truncated) NUL-terminated path into it.  The pinned source lacks the up-front termination (finding F51):
+    (possibly truncated) NUL-terminated path into it.  The pinned source lacks the up-front termination (finding F66):
     the statement is FALSE for it, TRUE once `buffer[0] = '\0'` is there — both proved relative to the generated fact
     `Generated.PathFmt.staticInitNul`, which says which of the two the source is right now. -/
 def StaticBufferTerminated : Prop :=
@@ -54,7 +54,7 @@ theorem static_buffer_terminated_fails (hsrc : Generated.PathFmt.staticInitNul =
   obtain ⟨b, hb, hlog⟩ := key
   exact h exTree [0] .std 3 b hb hlog
 
-/-- with the repair of F51 in the source the full statement holds -/
+/-- with the repair of F66 in the source the full statement holds -/
 theorem static_buffer_terminated_fixed (hsrc : Generated.PathFmt.staticInitNul = true) : StaticBufferTerminated := by
   intro f a pt n b h
   unfold lydPath at h
@@ -278,20 +278,20 @@ theorem lastValueIs_lastValue : ∀ (ls : List Level), lastValueIs (lastValue ls
     | nil => simp [lastValueIs, lastValue]
     | cons l2 r => simpa [lastValueIs, lastValue] using ih
 
-/-- the top-level element of the chain is addressed by a position greater than 1 (finding F50) -/
+/-- the top-level element of the chain is addressed by a position greater than 1 (finding F65) -/
 def TopPositionAbove1 : List Level → Prop
   | [] => False
   | l :: _ => l.node.kind.dupInst = true ∧ 1 < listPos l.sibs l.idx l.node
 
 /-- **new_path_chain** (full statement): `lyd_new_path(NULL, ctx, lyd_path(n), value(n))` creates, in an empty tree, a
     chain equal (content-wise: names, modules, kinds, key leaves, value) to `n` and its ancestors.
-    FALSE for the code: finding F50. -/
+    FALSE for the code: finding F65. -/
 def NewPathChain : Prop :=
   ∀ (schema : List SNode) (f : Forest) (a : Addr) (ls : List Level) (c : DNode), ChainOK schema f a ls →
     (∀ l ∈ ls, l.TermNoKids) → chainOf ls = some c →
     ∃ p, pathOf f a = some p ∧ newPath schema [] p (lastValue ls) = .ok ⟨[], c⟩
 
-/-- F50 witness: two instances of a top-level key-less list `kl`; the path of the second, `/ma:kl[2]`, cannot be created in
+/-- F65 witness: two instances of a top-level key-less list `kl`; the path of the second, `/ma:kl[2]`, cannot be created in
     an empty tree: "Cannot create "kl" on position 2, no instances exist" (`LY_EINVAL`). -/
 def f50Schema : List SNode := [.mk [109, 97] [107, 108] .keyless []]
 def f50Tree : Forest := [.mk [109, 97] [107, 108] .keyless [] [], .mk [109, 97] [107, 108] .keyless [] []]
